@@ -17,6 +17,7 @@ from .. import common, steploop, tlaval
 from ..common import MachineryError
 
 LEVEL = "model_checking"
+HANDLES_REPLAY = True
 
 INVS = ["TypeOK", "NoDuplicate", "NoInvention", "NoStranded", "CancelSurfaces", "NoSpuriousError", "AllDelivered", "NothingDestroyed",
         "PerSenderFifo", "SendAfterClose"]
